@@ -102,6 +102,9 @@ def add (cmp : K → K → Ordering) (dflt : V) (l : List (K × V)) (d : List (K
     | none => none
     | some a => assign cmp a kv.1 dflt kv.2) (some l)
 
+/-- `Map clone() const`: `Map b(*this); return b.dup();` — an element-wise copy of the array -/
+def clone (l : List (K × V)) : List (K × V) := l.map (fun kv => (kv.1, kv.2))
+
 /-- `Array<K> keys()` -/
 def keys (l : List (K × V)) : List K := l.map (·.1)
 
